@@ -3,7 +3,7 @@ import re
 SPEC = dict(
     harness="verif_c33",
     model="C33",
-    rule="one case = one HISTORY (4-17 calls, quick 6 000 / thorough 100 000 histories) of machine / pages / poke / invoke / peek / expunge against ONE "
+    rule="one case = one HISTORY (4-17 calls, quick 5 000 / thorough 100 000 histories) of machine / pages / poke / invoke / peek / expunge against ONE "
          "refine context, every call made through the real PVM.RefineOmegas entry with an OmegaInput as Host.HostCall builds it and HostCallArgs as "
          "RefineInvoke + Psi_M build them (IntegratedPVMMap, Program = the outer program). Programs: assembled arithmetic / load-store / loop / jump-table / "
          "ecalli / halt / empty programs (entry at any instruction start, past the end, >= 2^32) and blobs that must be refused (random bytes, truncated, "
